@@ -574,6 +574,25 @@ func runRecoverLevels(c *Ctx, r *RuleRun) {
 	if n == 0 {
 		r.Undecided(fn, "levels[level] exists", "", "no indexing of the level lists by a computed level found in recovery")
 	}
+	// the loop that waits for the level to exist makes progress: it stores a longer list
+	grows := false
+	var growPos token.Pos = rec.Pos()
+	for g := range p.Reach(rec) {
+		if g.Pkg != rec.Pkg {
+			continue
+		}
+		for _, st := range storesToField(g, levels) {
+			cl, ok := st.Val.(*ssa.Call)
+			if !ok || !inLoop(st.Block()) {
+				continue
+			}
+			if bi, ok := cl.Call.Value.(*ssa.Builtin); ok && bi.Name() == "append" && isLoadOfField(cl.Call.Args[0], levels) {
+				grows = true
+				growPos = instrPos(st)
+			}
+		}
+	}
+	r.Check(grows, fn, "missing levels are appended", p.Pos(growPos), "levels = append(levels, …) inside the loop", "nothing in recovery appends to the level lists inside a loop: a table of a level that does not exist yet makes Open spin forever or index out of range")
 }
 
 // ---- RECOVER.ENDLOG ----
